@@ -64,6 +64,7 @@ type rtScen struct {
 	wantRtGov  bool
 	missPct    uint8 // MaxMissedProposalsPercent
 
+	pctEq, pctBad uint8 // reward percentages of the runtime descriptor (valid: <= 100)
 	cur      common.Namespace   // the runtime the commitment builders work on
 	extra    []common.Namespace // further runtimes (one worker each) registered at once, in-messages enabled
 	maxIn    map[common.Namespace]uint32
@@ -93,6 +94,10 @@ const scriptRtSlashReward = "rt-slash-reward"
 // after which the compute nodes' registrations expire: the runtime is suspended while the
 // round timeout of the unfinished round is armed, and the chain runs past that height.
 const scriptRtSuspendTimeout = "rt-suspend-timeout"
+
+// scriptRtSlashPercent: a runtime descriptor with a reward percentage above 100 must be refused;
+// with it accepted, a resolved discrepancy makes distributeSlashedFunds fail in EndBlock.
+const scriptRtSlashPercent = "rt-slash-percent"
 
 const findingTFC = "C10:transfer-from-common-escrow-zero-balance-pool-full-commission"
 
@@ -132,6 +137,8 @@ func (w *world) rtInit() {
 	// runtime governance later (then only the runtime itself -- a message -- can update it)
 	s.rtModel = registry.GovernanceEntity
 	s.wantRtGov = r.Chance(35)
+	pcts := []uint8{0, 1, 50, 99, 100, 101, 200, 255}
+	s.pctEq, s.pctBad = pcts[r.Intn(len(pcts))], pcts[r.Intn(len(pcts))]
 	s.cur = s.id
 	s.maxIn = map[common.Namespace]uint32{s.id: uint32(2 + r.Intn(3))}
 	s.inCache, s.extraRnd = map[string]inPlan{}, map[common.Namespace]uint64{}
@@ -157,6 +164,24 @@ func (w *world) rtInit() {
 			s.ownEscrow = append(s.ownEscrow, 0)
 		}
 		s.stragglers, s.liveEval, s.msgs, s.rtModel = 0, 0, false, registry.GovernanceEntity
+	}
+	if w.d.Script == scriptRtSlashReward || w.d.Script == scriptRtSuspendTimeout {
+		s.pctEq, s.pctBad = 30, 40
+	}
+	if w.d.Script == scriptRtSlashPercent {
+		// as rt-slash-reward, but an ordinary commission and a bad-results reward percentage of 200
+		// (refused at registration; the history then registers the runtime with 40)
+		s.group, s.backup, s.timeout, s.expire, s.slashAmt = 2, 1, 5, 1000, big.NewInt(5000)
+		s.nodes, s.own, s.ownEscrow = nil, nil, nil
+		for i := 0; i < 3; i++ {
+			cn := *muxdrv.NewValidator(w.g.Seed, 10+i)
+			cn.Entity = w.g.Validators[0].Entity
+			s.nodes = append(s.nodes, &cn)
+			s.own = append(s.own, false)
+			s.ownEscrow = append(s.ownEscrow, 0)
+		}
+		s.stragglers, s.liveEval, s.msgs, s.rtModel, s.wantRtGov = 0, 0, false, registry.GovernanceEntity, false
+		s.pctEq, s.pctBad = 30, 200
 	}
 	if w.d.Script == scriptRtSuspendTimeout {
 		s.group, s.backup, s.timeout, s.expire, s.slashAmt = 2, 0, 6, 2, big.NewInt(0)
@@ -204,6 +229,7 @@ func (w *world) rtExtraDescriptor(id common.Namespace) *registry.Runtime {
 		},
 	}
 	d.Staking.Slashing = nil
+	d.Staking.RewardSlashEquvocationRuntimePercent, d.Staking.RewardSlashBadResultsRuntimePercent = 30, 40
 	return d
 }
 
@@ -235,8 +261,8 @@ func (w *world) rtDescriptor() *registry.Runtime {
 				staking.SlashRuntimeEquivocation:     {Amount: qBig(s.slashAmt)},
 				staking.SlashRuntimeLiveness:         {Amount: qBig(s.liveSlash), FreezeInterval: 1},
 			},
-			RewardSlashEquvocationRuntimePercent: 30,
-			RewardSlashBadResultsRuntimePercent:  40,
+			RewardSlashEquvocationRuntimePercent: s.pctEq,
+			RewardSlashBadResultsRuntimePercent:  s.pctBad,
 		},
 		Deployments: []*registry.VersionInfo{{}},
 	}
@@ -528,7 +554,7 @@ func (w *world) rtExtras(bp *blockPlan, local map[staking.Address]uint64) {
 // roothashPrimary plans the primary runtime's part of block b.
 func (w *world) roothashPrimary(b int) (*blockPlan, map[staking.Address]uint64) {
 	r, g, s := w.rng, w.g, w.rt
-	scripted := w.d.Script == scriptRtSlashReward || w.d.Script == scriptRtSuspendTimeout
+	scripted := w.d.Script == scriptRtSlashReward || w.d.Script == scriptRtSuspendTimeout || w.d.Script == scriptRtSlashPercent
 	bp := &blockPlan{proposer: r.Intn(len(w.props))}
 	bp.votes, bp.votesTag = w.votePattern()
 	var etag string
@@ -566,6 +592,19 @@ func (w *world) roothashPrimary(b int) (*blockPlan, map[staking.Address]uint64) 
 		bp.txs = append(bp.txs, genTx{raw: muxdrv.Sign(rich.Key, tx), kind: "rt:fund runtime account"})
 		return bp, local
 	case 1:
+		if w.rtState() == nil && (s.pctEq > 100 || s.pctBad > 100) {
+			// the descriptor with a reward percentage above 100 was refused: register a valid one
+			w.count("rt-percent/descriptor with a percentage above 100 refused, valid one registered")
+			if s.pctEq > 100 {
+				s.pctEq = 30
+			}
+			if s.pctBad > 100 {
+				s.pctBad = 40
+			}
+			bp.txs = append(bp.txs, genTx{raw: muxdrv.Sign(v0.Entity, registry.NewRegisterRuntimeTx(w.nextNonce(v0.Entity, local), big4, w.rtDescriptor())), kind: "rt:register runtime"})
+		} else if s.pctEq > 100 || s.pctBad > 100 {
+			w.count("rt-percent/descriptor with a percentage above 100 ACCEPTED")
+		}
 		for i, cn := range s.nodes {
 			if s.own[i] {
 				bp.txs = append(bp.txs, genTx{raw: muxdrv.Sign(cn.Entity, muxdrv.TxAddEscrow(w.nextNonce(cn.Entity, local), muxdrv.Fee(1, muxdrv.DefaultGas), cn.Entity.Address(), s.ownEscrow[i])), kind: "rt:node owner self-escrow"})
@@ -680,6 +719,12 @@ func (w *world) roothashPrimary(b int) (*blockPlan, map[staking.Address]uint64) 
 	// runtime governance: the owner updates the descriptor (round timeout changes)
 	if r.Chance(6) && s.rtModel == registry.GovernanceEntity {
 		s.updates++
+		d := w.rtDescriptor()
+		if r.Chance(40) { // an update with reward percentages drawn anew (above 100: refused)
+			pcts := []uint8{0, 1, 50, 99, 100, 101, 200, 255}
+			d.Staking.RewardSlashEquvocationRuntimePercent, d.Staking.RewardSlashBadResultsRuntimePercent = pcts[r.Intn(len(pcts))], pcts[r.Intn(len(pcts))]
+			bp.txs = append(bp.txs, genTx{raw: muxdrv.Sign(v0.Entity, registry.NewRegisterRuntimeTx(w.nextNonce(v0.Entity, local), big4, d)), kind: "rt:update runtime descriptor (percentages)"})
+		}
 		bp.txs = append(bp.txs, genTx{raw: muxdrv.Sign(v0.Entity, registry.NewRegisterRuntimeTx(w.nextNonce(v0.Entity, local), big4, w.rtDescriptor())), kind: "rt:update runtime descriptor"})
 	}
 	// a node owner pulls its stake: below the thresholds its node is not eligible next epoch
